@@ -8,7 +8,7 @@ The clause, its truth and its evidence are the same; only the property it is rep
 
 
 def _rules():
-    from . import c01, c02, c03, c04, c05, c06, c09_prims, c12, c13, c16, c17, preds, shared
+    from . import c01, c02, c03, c04, c05, c06, c08, c09_prims, c12, c13, c16, c17, preds, shared, wire_rules
     return {
         "conflict": [
             lambda R, c, rid: c01.rule_f(R, c, rid),
@@ -36,6 +36,7 @@ def _rules():
             lambda R, c, rid: c04.rule_i(R, c, rid),
             lambda R, c, rid: c06.rule_g(R, c, rid),
             lambda R, c, rid: c06.rule_h(R, c, rid),
+            lambda R, c, rid: shared.trims(R, c, rid),
         ],
         "stash-deletes": [
             lambda R, c, rid: shared.unapplied_within_range(R, c, rid),
@@ -69,6 +70,14 @@ def _rules():
             lambda R, c, rid: shared.map_api(R, c, rid),
             lambda R, c, rid: preds.rule(R, c, rid, ["map_contains_key"]),
         ],
+        "block-wire": [
+            lambda R, c, rid: wire_rules._wire(R, c, rid, ["Block", "Update"]),
+        ],
+        "merge": [
+            lambda R, c, rid: c08.rule_e(R, c, rid),
+            lambda R, c, rid: c08.rule_b(R, c, rid),
+            lambda R, c, rid: preds.rule(R, c, rid, ["same_type"]),
+        ],
         "flags": [
             lambda R, c, rid: preds.rule(R, c, rid, ["flags_check"]),
             lambda R, c, rid: preds.flag_table(R, c, rid),
@@ -78,22 +87,22 @@ def _rules():
 
 # property -> mechanisms it depends on *in addition to* the clauses its own module already runs
 DEPENDS = {
-    "C01": ["squash", "splice", "partial", "flags", "stash-deletes", "lookup", "content", "export", "liveness"],
-    "C02": ["stash-deletes", "lookup", "export"],
+    "C01": ["squash", "splice", "partial", "flags", "stash-deletes", "lookup", "content", "export", "liveness", "block-wire", "merge"],
+    "C02": ["stash-deletes", "lookup", "export", "block-wire", "merge"],
     "C03": ["splice", "conflict", "lookup", "content", "map-api"],
     "C04": ["splice", "dependency", "stash-deletes", "lookup", "content"],
-    "C05": ["conflict", "squash", "splice", "dependency", "map-api"],
-    "C06": ["dependency", "delete-set", "slice", "partial", "lookup", "content"],
-    "C07": ["delete-set", "slice", "partial", "export", "liveness"],
-    "C08": ["slice", "delete-set", "partial"],
+    "C05": ["conflict", "squash", "splice", "dependency", "map-api", "merge"],
+    "C06": ["dependency", "delete-set", "slice", "partial", "lookup", "content", "merge"],
+    "C07": ["delete-set", "slice", "partial", "export", "liveness", "block-wire"],
+    "C08": ["slice", "delete-set", "partial", "block-wire"],
     "C09": ["slice", "partial", "content"],
     "C12": ["splice", "squash", "lookup"],
     "C13": ["splice", "delete-set", "lookup", "content", "export", "liveness"],
     "C14": ["splice", "liveness", "lookup"],
-    "C15": ["squash", "splice", "content"],
+    "C15": ["squash", "splice", "content", "block-wire"],
     "C16": ["delete-set"],
     "C17": ["flags", "content", "map-api"],
-    "C18": ["dependency", "stash-deletes", "partial", "export"],
+    "C18": ["dependency", "stash-deletes", "partial", "export", "block-wire", "merge"],
     "C20": ["dependency", "splice", "squash", "lookup"],
 }
 
